@@ -111,8 +111,11 @@ class EMGTrack(Sized, BuildWriteable):
 
     def __eq__(self, other):
         # gaps are stored as NaN: they are equal if they are in the same place
+        # samples are stored as 32 bit floats: compare them at that width
         return self.label == other.label and np.array_equal(
-            self.data, other.data, equal_nan=True
+            np.asarray(self.data, dtype=f32.btype),
+            np.asarray(other.data, dtype=f32.btype),
+            equal_nan=True,
         )
 
     def __repr__(self) -> str:
@@ -207,7 +210,7 @@ class EMG(Block):
             return False
         return (
             self.frequency == other.frequency
-            and self.startTime == other.startTime
+            and np.float32(self.startTime) == np.float32(other.startTime)
             and self.nSamples == other.nSamples
             and len(self._signals) == len(other._signals)
             and list(self._emgMap) == list(other._emgMap)
